@@ -2655,8 +2655,8 @@ class sptensor:
             #  call it twice
             nzsubsIdx = tt_intersect_rows(self.subs, other.subs)
             nzsubs = self.subs[nzsubsIdx]
-            iother = tt_intersect_rows(other.subs, self.subs)
-            equal_subs = self.vals[nzsubsIdx] == other.vals[iother]
+            # Compare the common entries by subscript (stored orders may differ)
+            equal_subs = self.vals[nzsubsIdx] == other.extract(nzsubs)
             znzsubs = np.empty(shape=(0, other.ndims), dtype=int)
             if equal_subs.size > 0:
                 znzsubs = nzsubs[(equal_subs).transpose()[0], :]
